@@ -1,4 +1,5 @@
-(* Proofs about model/Tenant.v (C18): an invariant over all interleavings. *)
+(* Proofs about model/Tenant.v (C18): an invariant over all interleavings of
+   creators and deleters. *)
 From Coq Require Import List Arith NArith Bool Lia Permutation.
 From Verif Require Import CheckLib Tenant.
 Import ListNotations.
@@ -27,15 +28,42 @@ Qed.
 Lemma nlen_app1 : forall {A} (l : list A) x, nlen (l ++ [x]) = nlen l + 1.
 Proof. intros. unfold nlen. rewrite app_length. cbn. lia. Qed.
 
+Lemma remove_in : forall x y l, In y (remove_id x l) <-> In y l /\ y <> x.
+Proof.
+  intros x y l. unfold remove_id. rewrite filter_In, negb_true_iff, N.eqb_neq. intuition congruence.
+Qed.
+
+Lemma remove_absent : forall x l, ~ In x l -> remove_id x l = l.
+Proof.
+  induction l as [|y l IH]; intros H; cbn; [reflexivity|].
+  destruct (N.eqb x y) eqn:E.
+  - apply N.eqb_eq in E. subst. exfalso. apply H. left. reflexivity.
+  - cbn. f_equal. apply IH. intros Hin. apply H. right. exact Hin.
+Qed.
+
+Lemma remove_len : forall x l, NoDup l -> In x l -> nlen (remove_id x l) + 1 = nlen l.
+Proof.
+  induction l as [|y l IH]; intros Hn Hin; [destruct Hin|].
+  inversion Hn as [|? ? Hy Hl]; subst. cbn [remove_id filter].
+  destruct (N.eqb x y) eqn:E.
+  - apply N.eqb_eq in E. subst y. cbn [negb]. fold (remove_id x l). rewrite (remove_absent _ _ Hy).
+    unfold nlen. cbn [length]. lia.
+  - cbn [negb]. fold (remove_id x l). destruct Hin as [->|Hin]; [rewrite N.eqb_refl in E; discriminate|].
+    specialize (IH Hl Hin). unfold nlen in *. cbn [length]. lia.
+Qed.
+
 (* ---------- reservations in flight ---------- *)
-(* a writer holds one counted unit that is not (yet) matched by a new stored entity *)
+(* a creator holds one counted unit that is not (yet) matched by a new stored entity *)
 Definition hold_pc (p : pc) : N :=
   match p with
   | Reserved | Logged | Stored true => 1
   | _ => 0
   end.
 
-Definition holds (t : thread) : N := hold_pc (at_pc t).
+Definition holdk (k : wkind) (p : pc) : N :=
+  match k with Creator => hold_pc p | Deleter => 0 end.
+
+Definition holds (t : thread) : N := holdk (kind t) (at_pc t).
 
 Fixpoint pend (l : list thread) : N :=
   match l with
@@ -51,14 +79,20 @@ Proof.
 Qed.
 
 Lemma pend_set_pc : forall l i t p, nth_error l i = Some t ->
-  pend (set_nth l i {| target := target t; at_pc := p |}) + hold_pc (at_pc t) = pend l + hold_pc p.
-Proof. intros l i t p H. apply (pend_set l i t {| target := target t; at_pc := p |} H). Qed.
+  pend (set_nth l i {| kind := kind t; target := target t; at_pc := p |}) + holdk (kind t) (at_pc t)
+  = pend l + holdk (kind t) p.
+Proof. intros l i t p H. apply (pend_set l i t {| kind := kind t; target := target t; at_pc := p |} H). Qed.
+
+Lemma pend_set_k : forall l i t p k, nth_error l i = Some t -> kind t = k ->
+  pend (set_nth l i {| kind := kind t; target := target t; at_pc := p |}) + holdk k (at_pc t)
+  = pend l + holdk k p.
+Proof. intros l i t p k H <-. apply pend_set_pc. exact H. Qed.
 
 Lemma pend_quiescent : forall l, forallb is_done l = true -> pend l = 0.
 Proof.
   induction l as [|t l IH]; intros H; cbn in *; [reflexivity|].
   apply andb_true_iff in H. destruct H as [H1 H2]. rewrite (IH H2).
-  unfold is_done in H1. unfold holds, hold_pc. destruct (at_pc t); try discriminate. reflexivity.
+  unfold is_done in H1. unfold holds, holdk, hold_pc. destruct (kind t); destruct (at_pc t); try discriminate; reflexivity.
 Qed.
 
 (* ---------- the invariant ---------- *)
@@ -70,13 +104,15 @@ Record inv (q : option N) (s : state) : Prop := {
   inv_count : usage s = nlen (stored s) + pend (threads s);   (* usage = stored + reserved in flight *)
   inv_nodup : NoDup (stored s);
   inv_within : within q (usage s);
-  (* a writer past its storage step, or accepted, has its entity in storage *)
-  inv_present : forall i t, nth_error (threads s) i = Some t ->
-                (exists e, at_pc t = Stored e) \/ at_pc t = Done Accepted -> In (target t) (stored s);
+  (* a creator past its storage step, or accepted, has its entity in storage unless a
+     delete of that id has been executed *)
+  inv_present : forall i t, nth_error (threads s) i = Some t -> kind t = Creator ->
+                (exists e, at_pc t = Stored e) \/ at_pc t = Done Accepted ->
+                In (target t) (stored s) \/ exists j, In (j, target t) (dels s);
   (* a writer that has not started, or was refused, has written nothing *)
   inv_clean : forall i t, nth_error (threads s) i = Some t ->
               at_pc t = Start \/ at_pc t = Done Refused ->
-              (forall x, ~ In (i, x) (wal s)) /\ (forall x, ~ In (i, x) (puts s));
+              (forall x, ~ In (i, x) (wal s)) /\ (forall x, ~ In (i, x) (puts s)) /\ (forall x, ~ In (i, x) (dels s));
   (* everything in storage was put by some writer *)
   inv_origin : forall x, In x (stored s) -> exists i, In (i, x) (puts s)
 }.
@@ -86,18 +122,22 @@ Proof.
   intros [m|] u H W; cbn in *; [|exact I]. apply N.leb_gt in H. lia.
 Qed.
 
-Lemma pend_init : forall targets, pend (map (fun x => {| target := x; at_pc := Start |}) targets) = 0.
-Proof. induction targets as [|x r IH]; cbn; [reflexivity | exact IH]. Qed.
-
-Lemma init_inv : forall q targets, inv q (init q targets).
+Lemma pend_init : forall writers,
+  pend (map (fun x => {| kind := fst x; target := snd x; at_pc := Start |}) writers) = 0.
 Proof.
-  intros q targets. split; cbn.
+  induction writers as [|x r IH]; cbn; [reflexivity|].
+  unfold holds. cbn. destruct (fst x); cbn; exact IH.
+Qed.
+
+Lemma init_inv : forall q writers, inv q (init q writers).
+Proof.
+  intros q writers. split; cbn.
   - reflexivity.
   - rewrite pend_init. reflexivity.
   - constructor.
   - destruct q; cbn; [lia | exact I].
-  - intros i t H [[e E]|E]; apply nth_error_In in H; apply in_map_iff in H; destruct H as [x [<- _]]; discriminate.
-  - intros i t _ _. split; intros x [].
+  - intros i t H _ [[e E]|E]; apply nth_error_In in H; apply in_map_iff in H; destruct H as [x [<- _]]; discriminate.
+  - intros i t _ _. repeat split; intros x [].
   - intros x [].
 Qed.
 
@@ -106,82 +146,154 @@ Ltac thread_cases Hj i j t Hn :=
   [ rewrite (nth_set_eq _ _ _ _ Hn) in Hj; inversion Hj; subst; clear Hj
   | rewrite (nth_set_neq _ _ _ _ Hne) in Hj ].
 
+Ltac proj := cbn [quota usage stored wal puts dels threads]; unfold with_thread.
+
+(* entries of another writer survive an append by writer i *)
+Lemma not_in_app1 : forall (l : list (nat * N)) i j x y, i <> j -> ~ In (j, x) l -> ~ In (j, x) (l ++ [(i, y)]).
+Proof.
+  intros l i j x y Hne H Hin. apply in_app_or in Hin. destruct Hin as [Hin|[Hin|[]]]; [auto | congruence].
+Qed.
+
 Lemma step_inv : forall q s i, inv q s -> inv q (step s i).
 Proof.
   intros q s i H. unfold step.
   destruct (nth_error (threads s) i) as [t|] eqn:Hn; [|exact H].
   destruct H as [Hq Hc Hd Hw Hp Hcl Ho].
-  destruct (at_pc t) eqn:Epc.
-  - (* Start: reserve or refuse *)
-    destruct (over_quota (quota s) (usage s)) eqn:Eo.
-    + split; cbn [quota usage stored wal puts threads]; unfold with_thread; try assumption.
-      * pose proof (pend_set_pc _ _ _ (Done Refused) Hn) as PS'. rewrite Epc in PS'. cbn [hold_pc] in PS'. lia.
-      * intros j tj Hj Hor. thread_cases Hj i j t Hn.
+  destruct (kind t) eqn:Ek.
+  - (* ---------- creator ---------- *)
+    unfold step_create. destruct (at_pc t) eqn:Epc.
+    + (* Start: reserve or refuse *)
+      destruct (over_quota (quota s) (usage s)) eqn:Eo.
+      * split; proj; try assumption.
+        -- pose proof (pend_set_k _ _ _ (Done Refused) _ Hn Ek) as PS'. rewrite Epc in PS'. cbn [holdk hold_pc] in PS'. lia.
+        -- intros j tj Hj Hk Hor. thread_cases Hj i j t Hn.
+           ++ cbn in Hor. destruct Hor as [[e E]|E]; discriminate.
+           ++ eapply Hp; eauto.
+        -- intros j tj Hj Hor. thread_cases Hj i j t Hn.
+           ++ apply (Hcl i t Hn). left. exact Epc.
+           ++ eapply Hcl; eauto.
+      * split; proj; try assumption.
+        -- pose proof (pend_set_k _ _ _ (Reserved) _ Hn Ek) as PS'. rewrite Epc in PS'. cbn [holdk hold_pc] in PS'. lia.
+        -- rewrite Hq in Eo. apply over_quota_false; assumption.
+        -- intros j tj Hj Hk Hor. thread_cases Hj i j t Hn.
+           ++ cbn in Hor. destruct Hor as [[e E]|E]; discriminate.
+           ++ eapply Hp; eauto.
+        -- intros j tj Hj Hor. thread_cases Hj i j t Hn.
+           ++ cbn in Hor. destruct Hor; discriminate.
+           ++ eapply Hcl; eauto.
+    + (* Reserved: append to the WAL *)
+      split; proj; try assumption.
+      * pose proof (pend_set_k _ _ _ (Logged) _ Hn Ek) as PS'. rewrite Epc in PS'. cbn [holdk hold_pc] in PS'. lia.
+      * intros j tj Hj Hk Hor. thread_cases Hj i j t Hn.
         -- cbn in Hor. destruct Hor as [[e E]|E]; discriminate.
         -- eapply Hp; eauto.
       * intros j tj Hj Hor. thread_cases Hj i j t Hn.
-        -- apply (Hcl i t Hn). left. exact Epc.
-        -- eapply Hcl; eauto.
-    + split; cbn [quota usage stored wal puts threads]; unfold with_thread; try assumption.
-      * pose proof (pend_set_pc _ _ _ (Reserved) Hn) as PS'. rewrite Epc in PS'. cbn [hold_pc] in PS'. lia.
-      * rewrite Hq in Eo. apply over_quota_false; assumption.
-      * intros j tj Hj Hor. thread_cases Hj i j t Hn.
-        -- cbn in Hor. destruct Hor as [[e E]|E]; discriminate.
+        -- cbn in Hor. destruct Hor; discriminate.
+        -- destruct (Hcl j tj Hj Hor) as [C1 [C2 C3]]. repeat split; try assumption.
+           intros x. apply not_in_app1; [exact Hne | apply C1].
+    + (* Logged: storage step *)
+      destruct (mem (target t) (stored s)) eqn:Em.
+      * split; proj; try assumption.
+        -- pose proof (pend_set_k _ _ _ (Stored true) _ Hn Ek) as PS'. rewrite Epc in PS'. cbn [holdk hold_pc] in PS'. lia.
+        -- intros j tj Hj Hk Hor. thread_cases Hj i j t Hn.
+           ++ cbn. left. apply mem_in. exact Em.
+           ++ eapply Hp; eauto.
+        -- intros j tj Hj Hor. thread_cases Hj i j t Hn.
+           ++ cbn in Hor. destruct Hor; discriminate.
+           ++ destruct (Hcl j tj Hj Hor) as [C1 [C2 C3]]. repeat split; try assumption.
+              intros x. apply not_in_app1; [exact Hne | apply C2].
+        -- intros x Hx. destruct (Ho x Hx) as [k Hk]. exists k. apply in_or_app. left. exact Hk.
+      * assert (Hnot : ~ In (target t) (stored s)).
+        { intros Hin. apply mem_in in Hin. congruence. }
+        split; proj; try assumption.
+        -- pose proof (pend_set_k _ _ _ (Stored false) _ Hn Ek) as PS'. rewrite Epc in PS'. cbn [holdk hold_pc] in PS'.
+           rewrite nlen_app1. lia.
+        -- assert (P : NoDup (target t :: stored s)) by (constructor; assumption).
+           eapply Permutation_NoDup; [apply Permutation_cons_append | exact P].
+        -- intros j tj Hj Hk Hor. thread_cases Hj i j t Hn.
+           ++ cbn. left. apply in_or_app. right. left. reflexivity.
+           ++ destruct (Hp j tj Hj Hk Hor) as [L|R]; [left; apply in_or_app; left; exact L | right; exact R].
+        -- intros j tj Hj Hor. thread_cases Hj i j t Hn.
+           ++ cbn in Hor. destruct Hor; discriminate.
+           ++ destruct (Hcl j tj Hj Hor) as [C1 [C2 C3]]. repeat split; try assumption.
+              intros x. apply not_in_app1; [exact Hne | apply C2].
+        -- intros x Hx. apply in_app_or in Hx. destruct Hx as [Hx|[<-|[]]].
+           ++ destruct (Ho x Hx) as [k Hk]. exists k. apply in_or_app. left. exact Hk.
+           ++ exists i. apply in_or_app. right. left. reflexivity.
+    + (* Stored e: settle the reservation *)
+      split; proj; try assumption.
+      * pose proof (pend_set_k _ _ _ (Done Accepted) _ Hn Ek) as PS'. rewrite Epc in PS'.
+        destruct existed; cbn [holdk hold_pc] in PS'; lia.
+      * destruct q as [m|]; cbn in *; [|exact I]. destruct existed; lia.
+      * intros j tj Hj Hk Hor. thread_cases Hj i j t Hn.
+        -- cbn. apply (Hp i t Hn Ek). left. eexists. exact Epc.
         -- eapply Hp; eauto.
       * intros j tj Hj Hor. thread_cases Hj i j t Hn.
         -- cbn in Hor. destruct Hor; discriminate.
         -- eapply Hcl; eauto.
-  - (* Reserved: append to the WAL *)
-    split; cbn [quota usage stored wal puts threads]; unfold with_thread; try assumption.
-    + pose proof (pend_set_pc _ _ _ (Logged) Hn) as PS'. rewrite Epc in PS'. cbn [hold_pc] in PS'. lia.
-    + intros j tj Hj Hor. thread_cases Hj i j t Hn.
-      * cbn in Hor. destruct Hor as [[e E]|E]; discriminate.
-      * eapply Hp; eauto.
-    + intros j tj Hj Hor. thread_cases Hj i j t Hn.
-      * cbn in Hor. destruct Hor; discriminate.
-      * destruct (Hcl j tj Hj Hor) as [C1 C2]. split; [|exact C2].
-        intros x Hx. apply in_app_or in Hx. destruct Hx as [Hx|[Hx|[]]]; [eapply C1; exact Hx | congruence].
-  - (* Logged: storage step *)
-    destruct (mem (target t) (stored s)) eqn:Em.
-    + split; cbn [quota usage stored wal puts threads]; unfold with_thread; try assumption.
-      * pose proof (pend_set_pc _ _ _ (Stored true) Hn) as PS'. rewrite Epc in PS'. cbn [hold_pc] in PS'. lia.
-      * intros j tj Hj Hor. thread_cases Hj i j t Hn.
-        -- cbn. apply mem_in. exact Em.
+    + (* Done: nothing *)
+      split; assumption.
+  - (* ---------- deleter ---------- *)
+    unfold step_delete. destruct (at_pc t) eqn:Epc.
+    + (* Start: the tenant is known *)
+      split; proj; try assumption.
+      * pose proof (pend_set_k _ _ _ (Reserved) _ Hn Ek) as PS'. cbn [holdk] in PS'. lia.
+      * intros j tj Hj Hk Hor. thread_cases Hj i j t Hn.
+        -- cbn in Hk. congruence.
         -- eapply Hp; eauto.
       * intros j tj Hj Hor. thread_cases Hj i j t Hn.
         -- cbn in Hor. destruct Hor; discriminate.
-        -- destruct (Hcl j tj Hj Hor) as [C1 C2]. split; [exact C1|].
-           intros x Hx. apply in_app_or in Hx. destruct Hx as [Hx|[Hx|[]]]; [eapply C2; exact Hx | congruence].
-      * intros x Hx. destruct (Ho x Hx) as [k Hk]. exists k. apply in_or_app. left. exact Hk.
-    + assert (Hnot : ~ In (target t) (stored s)).
-      { intros Hin. apply mem_in in Hin. congruence. }
-      split; cbn [quota usage stored wal puts threads]; unfold with_thread; try assumption.
-      * pose proof (pend_set_pc _ _ _ (Stored false) Hn) as PS'. rewrite Epc in PS'. cbn [hold_pc] in PS'. rewrite nlen_app1. lia.
-      * assert (P : NoDup (target t :: stored s)) by (constructor; assumption).
-        eapply Permutation_NoDup; [apply Permutation_cons_append | exact P].
-      * intros j tj Hj Hor. thread_cases Hj i j t Hn.
-        -- cbn. apply in_or_app. right. left. reflexivity.
-        -- apply in_or_app. left. eapply Hp; eauto.
+        -- eapply Hcl; eauto.
+    + (* Reserved: append to the WAL *)
+      split; proj; try assumption.
+      * pose proof (pend_set_k _ _ _ (Logged) _ Hn Ek) as PS'. cbn [holdk] in PS'. lia.
+      * intros j tj Hj Hk Hor. thread_cases Hj i j t Hn.
+        -- cbn in Hk. congruence.
+        -- eapply Hp; eauto.
       * intros j tj Hj Hor. thread_cases Hj i j t Hn.
         -- cbn in Hor. destruct Hor; discriminate.
-        -- destruct (Hcl j tj Hj Hor) as [C1 C2]. split; [exact C1|].
-           intros x Hx. apply in_app_or in Hx. destruct Hx as [Hx|[Hx|[]]]; [eapply C2; exact Hx | congruence].
-      * intros x Hx. apply in_app_or in Hx. destruct Hx as [Hx|[<-|[]]].
-        -- destruct (Ho x Hx) as [k Hk]. exists k. apply in_or_app. left. exact Hk.
-        -- exists i. apply in_or_app. right. left. reflexivity.
-  - (* Stored e: settle the reservation *)
-    assert (Hin : In (target t) (stored s)) by (apply (Hp i t Hn); left; eexists; exact Epc).
-    split; cbn [quota usage stored wal puts threads]; unfold with_thread; try assumption.
-    + pose proof (pend_set_pc _ _ _ (Done Accepted) Hn) as PS'. rewrite Epc in PS'. destruct existed; cbn [hold_pc] in PS'; lia.
-    + destruct q as [m|]; cbn in *; [|exact I]. destruct existed; lia.
-    + intros j tj Hj Hor. thread_cases Hj i j t Hn.
-      * cbn. exact Hin.
-      * eapply Hp; eauto.
-    + intros j tj Hj Hor. thread_cases Hj i j t Hn.
-      * cbn in Hor. destruct Hor; discriminate.
-      * eapply Hcl; eauto.
-  - (* Done: nothing *)
-    split; assumption.
+        -- destruct (Hcl j tj Hj Hor) as [C1 [C2 C3]]. repeat split; try assumption.
+           intros x. apply not_in_app1; [exact Hne | apply C1].
+    + (* Logged: remove from storage, free the unit if it was there *)
+      pose proof (pend_set_k _ _ _ (Stored (mem (target t) (stored s))) _ Hn Ek) as PS'. cbn [holdk] in PS'.
+      destruct (mem (target t) (stored s)) eqn:Em.
+      * assert (Hin : In (target t) (stored s)) by (apply mem_in; exact Em).
+        pose proof (remove_len _ _ Hd Hin) as RL.
+        split; proj; try assumption.
+        -- lia.
+        -- unfold remove_id. apply NoDup_filter. exact Hd.
+        -- destruct q as [m|]; cbn in *; [lia | exact I].
+        -- intros j tj Hj Hk Hor. thread_cases Hj i j t Hn.
+           ++ cbn in Hk. congruence.
+           ++ destruct (N.eq_dec (target tj) (target t)) as [E|NE].
+              ** right. exists i. rewrite E. apply in_or_app. right. left. reflexivity.
+              ** destruct (Hp j tj Hj Hk Hor) as [L|[k R]].
+                 --- left. apply remove_in. split; assumption.
+                 --- right. exists k. apply in_or_app. left. exact R.
+        -- intros j tj Hj Hor. thread_cases Hj i j t Hn.
+           ++ cbn in Hor. destruct Hor; discriminate.
+           ++ destruct (Hcl j tj Hj Hor) as [C1 [C2 C3]]. repeat split; try assumption.
+              intros x. apply not_in_app1; [exact Hne | apply C3].
+        -- intros x Hx. apply remove_in in Hx. apply Ho. apply Hx.
+      * split; proj; try assumption.
+        -- lia.
+        -- intros j tj Hj Hk Hor. thread_cases Hj i j t Hn.
+           ++ cbn in Hk. congruence.
+           ++ destruct (Hp j tj Hj Hk Hor) as [L|[k R]]; [left; exact L | right; exists k; apply in_or_app; left; exact R].
+        -- intros j tj Hj Hor. thread_cases Hj i j t Hn.
+           ++ cbn in Hor. destruct Hor; discriminate.
+           ++ destruct (Hcl j tj Hj Hor) as [C1 [C2 C3]]. repeat split; try assumption.
+              intros x. apply not_in_app1; [exact Hne | apply C3].
+    + (* Stored _: return *)
+      split; proj; try assumption.
+      * pose proof (pend_set_k _ _ _ (Done Accepted) _ Hn Ek) as PS'. cbn [holdk] in PS'. lia.
+      * intros j tj Hj Hk Hor. thread_cases Hj i j t Hn.
+        -- cbn in Hk. congruence.
+        -- eapply Hp; eauto.
+      * intros j tj Hj Hor. thread_cases Hj i j t Hn.
+        -- cbn in Hor. destruct Hor; discriminate.
+        -- eapply Hcl; eauto.
+    + split; assumption.
 Qed.
 
 Lemma run_inv : forall q sched s, inv q s -> inv q (run s sched).
@@ -190,92 +302,126 @@ Proof.
   apply IH. apply step_inv. exact H.
 Qed.
 
-Lemma reach_inv : forall q targets sched, inv q (run (init q targets) sched).
+Lemma reach_inv : forall q writers sched, inv q (run (init q writers) sched).
 Proof. intros. apply run_inv. apply init_inv. Qed.
 
-(* ---------- who put what; targets never change ---------- *)
-Definition puts_by_target (s : state) : Prop :=
-  forall i x, In (i, x) (puts s) -> exists t, nth_error (threads s) i = Some t /\ target t = x.
+(* ---------- who put / deleted what; kinds and targets never change ---------- *)
+Definition spec_of (t : thread) : wkind * N := (kind t, target t).
 
-Lemma step_puts_target : forall s j, puts_by_target s -> puts_by_target (step s j).
+Definition logs_by_writer (s : state) : Prop :=
+  (forall i x, In (i, x) (puts s) -> exists t, nth_error (threads s) i = Some t /\ spec_of t = (Creator, x)) /\
+  (forall i x, In (i, x) (dels s) -> exists t, nth_error (threads s) i = Some t /\ spec_of t = (Deleter, x)).
+
+Lemma set_keeps_spec : forall l j tj p i t, nth_error l j = Some tj -> nth_error l i = Some t ->
+  exists t', nth_error (set_nth l j {| kind := kind tj; target := target tj; at_pc := p |}) i = Some t' /\ spec_of t' = spec_of t.
 Proof.
-  intros s j H0 i x Hin. unfold step in *.
-  destruct (nth_error (threads s) j) as [tj|] eqn:Hn; [|apply H0; exact Hin].
-  assert (K : forall p, In (i, x) (puts s) ->
-              exists t, nth_error (set_nth (threads s) j {| target := target tj; at_pc := p |}) i = Some t /\ target t = x).
-  { intros p Hi. destruct (H0 i x Hi) as [t [Ht Et]].
-    destruct (Nat.eq_dec j i) as [<-|Hne].
-    - rewrite (nth_set_eq _ _ _ _ Hn). eexists; split; [reflexivity|]. cbn. congruence.
-    - rewrite (nth_set_neq _ _ _ _ Hne). eauto. }
-  destruct (at_pc tj) eqn:Epc.
-  - destruct (over_quota (quota s) (usage s)); cbn [puts threads] in *; unfold with_thread; apply K; exact Hin.
-  - cbn [puts threads] in *. unfold with_thread. apply K. exact Hin.
-  - cbn [puts threads] in *. unfold with_thread. apply in_app_or in Hin. destruct Hin as [Hin|[Hin|[]]].
-    + apply K. exact Hin.
-    + inversion Hin; subst. rewrite (nth_set_eq _ _ _ _ Hn). eexists; split; reflexivity.
-  - cbn [puts threads] in *. unfold with_thread. apply K. exact Hin.
-  - apply H0. exact Hin.
+  intros l j tj p i t Hj Hi. destruct (Nat.eq_dec j i) as [<-|Hne].
+  - rewrite (nth_set_eq _ _ _ _ Hj). eexists; split; [reflexivity|]. unfold spec_of. cbn. congruence.
+  - rewrite (nth_set_neq _ _ _ _ Hne). eauto.
 Qed.
 
-Lemma run_puts_target : forall sch s, puts_by_target s -> puts_by_target (run s sch).
+Lemma step_logs : forall s j, logs_by_writer s -> logs_by_writer (step s j).
+Proof.
+  intros s j [HP HD]. unfold step.
+  destruct (nth_error (threads s) j) as [tj|] eqn:Hn; [|split; assumption].
+  assert (KP : forall p i x, In (i, x) (puts s) ->
+            exists t, nth_error (set_nth (threads s) j {| kind := kind tj; target := target tj; at_pc := p |}) i = Some t
+                      /\ spec_of t = (Creator, x)).
+  { intros p i x Hi. destruct (HP i x Hi) as [t [Ht Et]].
+    destruct (set_keeps_spec _ _ _ p _ _ Hn Ht) as [t' [H1 H2]]. exists t'. split; [exact H1 | congruence]. }
+  assert (KD : forall p i x, In (i, x) (dels s) ->
+            exists t, nth_error (set_nth (threads s) j {| kind := kind tj; target := target tj; at_pc := p |}) i = Some t
+                      /\ spec_of t = (Deleter, x)).
+  { intros p i x Hi. destruct (HD i x Hi) as [t [Ht Et]].
+    destruct (set_keeps_spec _ _ _ p _ _ Hn Ht) as [t' [H1 H2]]. exists t'. split; [exact H1 | congruence]. }
+  assert (Self : forall p, exists t, nth_error (set_nth (threads s) j {| kind := kind tj; target := target tj; at_pc := p |}) j = Some t
+                      /\ spec_of t = (kind tj, target tj)).
+  { intros p. rewrite (nth_set_eq _ _ _ _ Hn). eexists; split; reflexivity. }
+  unfold step_create, step_delete, with_thread.
+  destruct (kind tj) eqn:Ek.
+  - destruct (at_pc tj) eqn:Epc; try (split; assumption);
+      try match goal with |- context [over_quota ?a ?b] => destruct (over_quota a b) end; split; proj; intros i x Hin;
+      try (apply KP; exact Hin); try (apply KD; exact Hin).
+    apply in_app_or in Hin. destruct Hin as [Hin|[Hin|[]]]; [apply KP; exact Hin|].
+    inversion Hin; subst. apply Self.
+  - destruct (at_pc tj) eqn:Epc; try (split; assumption);
+      split; proj; intros i x Hin; try (apply KP; exact Hin); try (apply KD; exact Hin).
+    apply in_app_or in Hin. destruct Hin as [Hin|[Hin|[]]]; [apply KD; exact Hin|].
+    inversion Hin; subst. apply Self.
+Qed.
+
+Lemma run_logs : forall sch s, logs_by_writer s -> logs_by_writer (run s sch).
 Proof.
   unfold run. induction sch as [|j r IH]; intros s H; cbn; [exact H|].
-  apply IH. apply step_puts_target. exact H.
+  apply IH. apply step_logs. exact H.
 Qed.
 
-Lemma set_nth_targets : forall l j tj p, nth_error l j = Some tj ->
-  map target (set_nth l j {| target := target tj; at_pc := p |}) = map target l.
+Lemma set_nth_specs : forall l j tj p, nth_error l j = Some tj ->
+  map spec_of (set_nth l j {| kind := kind tj; target := target tj; at_pc := p |}) = map spec_of l.
 Proof.
   induction l as [|y l IH]; intros [|j] tj p Hn; cbn in *; try discriminate.
   - inversion Hn; subst. reflexivity.
   - f_equal. apply IH. exact Hn.
 Qed.
 
-Lemma step_targets : forall s j, map target (threads (step s j)) = map target (threads s).
+Lemma step_specs : forall s j, map spec_of (threads (step s j)) = map spec_of (threads s).
 Proof.
   intros s j. unfold step. destruct (nth_error (threads s) j) as [tj|] eqn:Hn; [|reflexivity].
-  destruct (at_pc tj); try destruct (over_quota (quota s) (usage s)); cbn [threads]; unfold with_thread;
-    try (apply set_nth_targets; exact Hn); reflexivity.
+  destruct (kind tj) eqn:Ek; [unfold step_create | unfold step_delete];
+    destruct (at_pc tj); try match goal with |- context [over_quota ?a ?b] => destruct (over_quota a b) end; proj;
+    first [apply set_nth_specs; exact Hn | rewrite <- Ek; apply set_nth_specs; exact Hn | reflexivity].
 Qed.
 
-Lemma run_targets : forall sch s, map target (threads (run s sch)) = map target (threads s).
+Lemma run_specs : forall sch s, map spec_of (threads (run s sch)) = map spec_of (threads s).
 Proof.
   unfold run. induction sch as [|j r IH]; intros s; cbn; [reflexivity|].
-  rewrite IH. apply step_targets.
+  rewrite IH. apply step_specs.
 Qed.
+
+Lemma init_specs : forall q writers, map spec_of (threads (init q writers)) = writers.
+Proof.
+  intros q writers. cbn. rewrite map_map. unfold spec_of. cbn.
+  induction writers as [|[k x] r IH]; cbn; [reflexivity | f_equal; exact IH].
+Qed.
+
+Lemma init_logs : forall q writers, logs_by_writer (init q writers).
+Proof. intros. split; intros i x []. Qed.
 
 (* ---------- the property theorems ---------- *)
 
-(* however the writers interleave (any number of writers, any ids, any schedule, at every
-   point of the schedule): the entities in storage are distinct, no more than the quota, and
-   the usage counter is within the quota; every accepted creation is in storage *)
-Theorem quota_holds : forall m targets sched,
-  let s := run (init (Some m) targets) sched in
+(* however creators and deleters interleave (any number of writers, any ids, any schedule, at
+   every point of the schedule): the entities in storage are distinct, no more than the quota,
+   and the usage counter is within the quota; every accepted creation is in storage unless a
+   delete of that id was executed (by a deleter of exactly that id); storage holds only ids
+   that some creator asked for *)
+Theorem quota_holds : forall m writers sched,
+  let s := run (init (Some m) writers) sched in
   NoDup (stored s) /\ nlen (stored s) <= m /\ usage s <= m /\
-  (forall i t, nth_error (threads s) i = Some t -> at_pc t = Done Accepted -> In (target t) (stored s)) /\
-  (forall x, In x (stored s) -> In x targets).
+  (forall i t, nth_error (threads s) i = Some t -> kind t = Creator -> at_pc t = Done Accepted ->
+     In (target t) (stored s) \/ exists j, In (j, target t) (dels s) /\ nth_error writers j = Some (Deleter, target t)) /\
+  (forall x, In x (stored s) -> In (Creator, x) writers).
 Proof.
-  intros m targets sched s. pose proof (reach_inv (Some m) targets sched) as H. fold s in H.
+  intros m writers sched s. pose proof (reach_inv (Some m) writers sched) as H. fold s in H.
   destruct H as [Hq Hc Hd Hw Hp Hcl Ho]. cbn in Hw.
+  pose proof (run_logs sched _ (init_logs (Some m) writers)) as [LP LD]. fold s in LP, LD.
+  pose proof (run_specs sched (init (Some m) writers)) as SP. fold s in SP. rewrite init_specs in SP.
   split; [exact Hd|]. split; [lia|]. split; [exact Hw|]. split.
-  - intros i t Hn E. eapply Hp; eauto.
-  - intros x Hx. destruct (Ho x Hx) as [i Hi].
-    destruct (run_puts_target sched (init (Some m) targets)) with (i := i) (x := x) as [t [Ht Et]].
-    + intros i0 x0 [].
-    + exact Hi.
-    + apply nth_error_In in Ht. apply (in_map target) in Ht. fold s in Ht.
-      unfold s in Ht. rewrite run_targets in Ht. cbn in Ht.
-      rewrite map_map in Ht. cbn in Ht. rewrite map_id in Ht. congruence.
+  - intros i t Hn Hk E. destruct (Hp i t Hn Hk (or_intror E)) as [L|[j R]]; [left; exact L|].
+    right. exists j. split; [exact R|].
+    destruct (LD j _ R) as [tj [Hj Ej]]. rewrite <- SP.
+    rewrite nth_error_map, Hj. cbn. congruence.
+  - intros x Hx. destruct (Ho x Hx) as [i Hi]. destruct (LP i x Hi) as [t [Ht Et]].
+    rewrite <- SP, <- Et. apply in_map. eapply nth_error_In; exact Ht.
 Qed.
 
 (* a refused creation leaves nothing behind: the refused writer appended nothing to the
-   WAL and put nothing into storage, at any point of any schedule... *)
-Theorem refused_wrote_nothing : forall q targets sched i t,
-  let s := run (init q targets) sched in
+   WAL, put nothing into storage and deleted nothing, at any point of any schedule... *)
+Theorem refused_wrote_nothing : forall q writers sched i t,
+  let s := run (init q writers) sched in
   nth_error (threads s) i = Some t -> at_pc t = Done Refused ->
-  (forall x, ~ In (i, x) (wal s)) /\ (forall x, ~ In (i, x) (puts s)).
+  (forall x, ~ In (i, x) (wal s)) /\ (forall x, ~ In (i, x) (puts s)) /\ (forall x, ~ In (i, x) (dels s)).
 Proof.
-  intros q targets sched i t s Hn E. pose proof (reach_inv q targets sched) as H. fold s in H.
+  intros q writers sched i t s Hn E. pose proof (reach_inv q writers sched) as H. fold s in H.
   eapply (inv_clean _ _ H); eauto.
 Qed.
 
@@ -284,47 +430,73 @@ Qed.
 Theorem refusal_changes_nothing : forall s i t',
   nth_error (threads (step s i)) i = Some t' -> at_pc t' = Done Refused ->
   usage (step s i) = usage s /\ stored (step s i) = stored s /\ wal (step s i) = wal s /\
-  puts (step s i) = puts s /\ quota (step s i) = quota s.
+  puts (step s i) = puts s /\ dels (step s i) = dels s /\ quota (step s i) = quota s.
 Proof.
   intros s i t' Hn E. unfold step in *.
   destruct (nth_error (threads s) i) as [t|] eqn:Ht; [|repeat split].
-  destruct (at_pc t) eqn:Epc.
-  - destruct (over_quota (quota s) (usage s)); cbn [usage stored wal puts quota threads] in *; [repeat split|].
-    unfold with_thread in Hn. rewrite (nth_set_eq _ _ _ _ Ht) in Hn. inversion Hn; subst. discriminate.
-  - cbn [threads] in Hn. unfold with_thread in Hn. rewrite (nth_set_eq _ _ _ _ Ht) in Hn. inversion Hn; subst. discriminate.
-  - cbn [threads] in Hn. unfold with_thread in Hn. rewrite (nth_set_eq _ _ _ _ Ht) in Hn. inversion Hn; subst. discriminate.
-  - cbn [threads] in Hn. unfold with_thread in Hn. rewrite (nth_set_eq _ _ _ _ Ht) in Hn. inversion Hn; subst. discriminate.
-  - repeat split.
+  destruct (kind t); [unfold step_create in * | unfold step_delete in *];
+    destruct (at_pc t) eqn:Epc; try (repeat split; fail);
+    try (destruct (over_quota (quota s) (usage s)); [repeat split|]);
+    cbn [threads] in Hn; unfold with_thread in Hn; rewrite (nth_set_eq _ _ _ _ Ht) in Hn; inversion Hn; subst; discriminate.
 Qed.
 
 (* usage = stored entities + reservations in flight, always; hence equal at quiescence *)
-Theorem usage_exact : forall q targets sched,
-  let s := run (init q targets) sched in
+Theorem usage_exact : forall q writers sched,
+  let s := run (init q writers) sched in
   usage s = nlen (stored s) + pend (threads s) /\
   (quiescent s = true -> usage s = nlen (stored s)).
 Proof.
-  intros q targets sched s. pose proof (reach_inv q targets sched) as H. fold s in H.
+  intros q writers sched s. pose proof (reach_inv q writers sched) as H. fold s in H.
   destruct H as [Hq Hc Hd Hw Hp Hcl Ho]. split; [exact Hc|].
   intros Q. unfold quiescent in Q. rewrite (pend_quiescent _ Q) in Hc. lia.
 Qed.
 
+(* the storage step of a delete, at any point of any schedule: deleting an id that is not
+   stored changes neither storage nor usage; deleting a stored id removes exactly that id
+   and frees exactly one unit (usage was at least 1: no underflow); the other steps of a
+   delete touch neither storage nor usage *)
+Theorem delete_exact : forall q writers sched i t,
+  let s := run (init q writers) sched in
+  nth_error (threads s) i = Some t -> kind t = Deleter ->
+  let s' := step s i in
+  quota s' = quota s /\ puts s' = puts s /\
+  (at_pc t <> Logged -> stored s' = stored s /\ usage s' = usage s) /\
+  (at_pc t = Logged -> ~ In (target t) (stored s) -> stored s' = stored s /\ usage s' = usage s) /\
+  (at_pc t = Logged -> In (target t) (stored s) ->
+     (forall y, In y (stored s') <-> In y (stored s) /\ y <> target t) /\
+     nlen (stored s') + 1 = nlen (stored s) /\ usage s' + 1 = usage s).
+Proof.
+  intros q writers sched i t s Hn Hk s'. pose proof (reach_inv q writers sched) as H. fold s in H.
+  destruct H as [Hq Hc Hd Hw Hp Hcl Ho].
+  subst s'. unfold step. rewrite Hn, Hk. unfold step_delete.
+  destruct (at_pc t) eqn:Epc; cbn [quota usage stored puts];
+    try (repeat split; try reflexivity; intros; congruence).
+  split; [reflexivity|]. split; [reflexivity|]. split; [intros C; congruence|]. split.
+  - intros _ Hnot. destruct (mem (target t) (stored s)) eqn:Em; [apply mem_in in Em; contradiction|]. split; reflexivity.
+  - intros _ Hin. pose proof Hin as Em. apply mem_in in Em. rewrite Em.
+    pose proof (remove_len _ _ Hd Hin) as RL. split; [|split].
+    + intros y. apply remove_in.
+    + exact RL.
+    + lia.
+Qed.
+
 (* recovery sets usage to what storage holds: after any number (>= 1) of recoveries the
    counter equals the stored count; at quiescence recovery changes nothing at all *)
-Theorem recover_idempotent : forall q targets sched n,
-  let s := run (init q targets) sched in
+Theorem recover_idempotent : forall q writers sched n,
+  let s := run (init q writers) sched in
   usage (Nat.iter (S n) recover s) = nlen (stored s) /\
   stored (Nat.iter (S n) recover s) = stored s /\
   recover (recover s) = recover s /\
   (quiescent s = true -> Nat.iter n recover s = s).
 Proof.
-  intros q targets sched n s.
+  intros q writers sched n s.
   assert (A : forall k, stored (Nat.iter k recover s) = stored s).
   { induction k as [|k IH]; cbn; [reflexivity | exact IH]. }
   split.
   { change (usage (recover (Nat.iter n recover s)) = nlen (stored s)).
     unfold recover at 1. cbn [usage]. rewrite A. reflexivity. }
   split; [apply (A (S n))|]. split; [reflexivity|].
-  intros Q. destruct (usage_exact q targets sched) as [_ U]. fold s in U. specialize (U Q).
+  intros Q. destruct (usage_exact q writers sched) as [_ U]. fold s in U. specialize (U Q).
   assert (R : recover s = s).
   { unfold recover. rewrite <- U. destruct s; reflexivity. }
   induction n as [|n IH]; [reflexivity|].
@@ -334,6 +506,6 @@ Qed.
 (* the original recover added the stored count on every call: two calls after one creation
    leave usage 3 for 1 stored entity *)
 Example original_recover_adds :
-  let s := run (init (Some 5) [7]) [0; 0; 0; 0]%nat in
+  let s := run (init (Some 5) [(Creator, 7)]) [0; 0; 0; 0]%nat in
   usage s = 1 /\ nlen (stored s) = 1 /\ usage (recover_original (recover_original s)) = 3.
 Proof. vm_compute. repeat split; reflexivity. Qed.
